@@ -1,20 +1,15 @@
-(* C14, helper file 5: the utf-8-addr-unitext form of a text contains Unicode
-   white space (in the sense of Go's unicode.IsSpace, used by strings.Fields
-   and strings.TrimSpace on the server) only if the text contains one of the
-   nineteen non-ASCII White_Space code points - ASCII white space is always
-   written as \x{HH}.  [unitext_ws_free] discharges the [ws_free] hypothesis
-   of the line-level theorem from a condition on code points. *)
+(* C14, helper file 5: the utf-8-addr-unitext form of a text contains no
+   Unicode white space (in the sense of Go's unicode.IsSpace, used by
+   strings.Fields and strings.TrimSpace on the server): ASCII white space and
+   the nineteen non-ASCII White_Space code points (Xtext.uspace_cps) are
+   written as \x{HEX}, and the UTF-8 form of any other non-ASCII scalar value
+   starts no white space.  [unitext_ws_free] discharges the [ws_free]
+   obligation of the line-level theorem for EVERY text of the domain. *)
 From Smtp Require Import Bytes GoStrings Utf8 Xtext Utf8Proofs XtextProofs ReplyProofs C14Line.
 From Coq Require Import Lia ZifyBool ZifyN.
 Local Open Scope char_scope.
 
-Definition uspace_cps : list N :=
-  [133; 160; 5760; 8192; 8193; 8194; 8195; 8196; 8197; 8198; 8199; 8200; 8201; 8202;
-   8232; 8233; 8239; 8287; 12288]%N.
-
-(* a non-ASCII code point with the Unicode White_Space property *)
-Definition uspace_cp (cp : N) : bool := existsb (N.eqb cp) uspace_cps.
-
+(* Xtext.uspace_cps are the code points of GoStrings.uni_spaces *)
 Lemma uni_spaces_encode : map utf8_encode uspace_cps = uni_spaces.
 Proof. vm_compute. reflexivity. Qed.
 
@@ -102,27 +97,35 @@ Proof.
 Qed.
 
 Theorem unitext_ws_free cs :
-  forallb addr_cp cs = true -> forallb (fun cp => negb (uspace_cp cp)) cs = true ->
+  forallb addr_cp cs = true ->
   ws_free (encode_utf8_addr_unitext (utf8_of_runes cs)) = true.
 Proof.
-  intros Ha Hu. unfold encode_utf8_addr_unitext.
+  intros Ha. unfold encode_utf8_addr_unitext.
   rewrite runes_utf8_of_runes by now apply addr_cp_valid.
   induction cs as [|cp cs IH]; [reflexivity|].
-  cbn [forallb] in Ha, Hu. apply andb_true_iff in Ha as [Ha1 Ha2]. apply andb_true_iff in Hu as [Hu1 Hu2].
-  specialize (IH Ha2 Hu2). cbn [flat_map]. unfold encode_utf8_addr_unitext_rune at 1.
+  cbn [forallb] in Ha. apply andb_true_iff in Ha as [Ha1 Ha2].
+  specialize (IH Ha2). cbn [flat_map]. unfold encode_utf8_addr_unitext_rune at 1.
   destruct (N.ltb_spec cp 128) as [Hlt|Hge].
   - destruct (qchar (n_byte cp)) eqn:Q.
     + apply (ws_free_app_ascii [n_byte cp]); [|exact IH]. cbn [forallb]. now rewrite (qchar_tokch _ Q).
     + apply ws_free_app_ascii; [apply embedded_tokch|exact IH].
-  - apply ws_free_utf8; try assumption.
-    + unfold addr_cp in Ha1. lia.
-    + now apply negb_true_iff in Hu1.
+  - destruct (uspace_cp cp) eqn:Hu.
+    + apply ws_free_app_ascii; [apply embedded_tokch|exact IH].
+    + apply ws_free_utf8; try assumption. unfold addr_cp in Ha1. lia.
 Qed.
 
 Print Assumptions unitext_ws_free.
 
+(* every one of the nineteen code points, at the start, inside and at the end *)
 Example unitext_ws_free_ex :
-  let cs := [233; 32; 92; 128512; 64; 8364]%N in
-  forallb addr_cp cs = true /\ forallb (fun cp => negb (uspace_cp cp)) cs = true
-  /\ ws_free (encode_utf8_addr_unitext (utf8_of_runes cs)) = true.
+  let cs := [160; 233; 32; 92; 8195; 128512; 64; 8364; 12288]%N in
+  forallb addr_cp cs = true
+  /\ ws_free (encode_utf8_addr_unitext (utf8_of_runes cs)) = true
+  /\ encode_utf8_addr_unitext (utf8_of_runes cs)
+     = bs "\x{A0}" ++ [b 195; b 169] ++ bs "\x{20}\x{5C}\x{2003}" ++ [b 240; b 159; b 152; b 128]
+       ++ bs "@" ++ [b 226; b 130; b 172] ++ bs "\x{3000}"
+  /\ forallb (fun cp => let cs := [cp; 120; cp; 64; 121; cp]%N in
+                        forallb addr_cp cs
+                        && ws_free (encode_utf8_addr_unitext (utf8_of_runes cs))
+                        && negb (ws_free (utf8_of_runes cs))) uspace_cps = true.
 Proof. vm_compute. repeat split. Qed.
